@@ -30,15 +30,6 @@ def near (m v : F64) (scaleMag : F64) : Bool :=
   F64.same m v || (m.isFinite && v.isFinite &&
     Dy.le (Dy.abs (Dy.sub m.toDy v.toDy)) (let s := Dy.abs scaleMag.toDy; ⟨s.m, s.e - 50⟩))
 
-/-- the class of the open finding: latitude +90 is located in cell row −1 (two roundings of 90·((h−1)/180) end above (h−1)/2) -/
-def northClass (E : Env F64 (List F64)) (lat lon : F64) : Bool :=
-  match E.loc lat lon with
-  | some (_, iy, _, _) => iy == -1 && F64.eq lat (F64.ofInt 90)
-  | none => false
-
-def northMsg (lat : F64) (h : Int) : String :=
-  s!"north-pole-cell-row: lat={showF lat} is located in cell row -1 of a raster of height {h} [class:north-pole-row]"
-
 /-- cache flag and extent reported by the implementation after a cache operation: `c:W:E:N:S` -/
 def checkExtent (f : File) (cubic : Bool) (s : St (List F64)) (parts : List String) : Option String :=
   match parts with
@@ -63,7 +54,6 @@ partial def walk (f : File) (cubic : Bool) (E : Env F64 (List F64)) (s : St (Lis
     | ["H", la, lo] =>
       (match parseF la, parseF lo with
        | some lat, some lon =>
-         if northClass E lat lon then (some (northMsg lat f.h), bits) else
          (match parseF r with
           | some v =>
             let (s', out) := apiStep f cubic s (.height lat lon)
@@ -80,7 +70,6 @@ partial def walk (f : File) (cubic : Bool) (E : Env F64 (List F64)) (s : St (Lis
     | ["C", la, lo, hh] =>
       (match parseF la, parseF lo, parseF hh with
        | some lat, some lon, some h0 =>
-         if northClass E lat lon then (some (northMsg lat f.h), bits) else
          (match (r.splitOn ":").map parseF with
           | [some up, some dn] =>
             let (s', out) := step E s (.height lat lon)
